@@ -39,6 +39,18 @@ OPS = {
  'TForward': ('ggg', 'g'), 'TActivate': ('ig', 'g'),
 }
 
+def reg_args(op, args):
+    """the arguments of an instruction that are register indices (immediates dropped)"""
+    sig = OPS[op][0]
+    star = sig.endswith('*')
+    body = sig[:-2] if star else sig
+    out = []
+    for k, a in enumerate(args):
+        kind = body[k] if k < len(body) else 'g'
+        if kind != 'i':
+            out.append(a)
+    return out
+
 class Prog:
     """a straight-line program over a register file; add() returns the new register index"""
     def __init__(self):
